@@ -104,11 +104,12 @@ func (a *Application) providerProxyHandler(w http.ResponseWriter, r *http.Reques
 	r.URL.Path = pr.targetPath
 
 	a.logRequestStart(pr, len(endpoints))
-	err = a.executeProxyRequest(ctx, w, r, endpoints, pr)
+	sw := &startedWriter{ResponseWriter: w}
+	err = a.executeProxyRequest(ctx, sw, r, endpoints, pr)
 	a.logRequestResult(pr, err)
 
 	if err != nil {
-		a.handleProxyError(w, err)
+		a.handleProxyError(sw, err)
 	}
 }
 
